@@ -22,7 +22,8 @@ RULE = ('four case kinds, each a generated layout + an operation history of dept
         '{_min,_max,_limits} plus a LimitsType parameter; co = 1..3 controllers registered in random name order on one output. '
         'After every operation the result, the update events in order and the cached values of all parameters are compared with '
         'the model.  A case is non-trivial when at least one operation produced an update event; distinct = distinct '
-        '(kind, layout, ops).  thorough adds exhaustive histories of depth <= 3 (st, co), <= 3 (li, fe) over small alphabets.')
+        '(kind, layout, ops).  On top of the seeded random histories: exhaustive histories over 6-8 letter alphabets on 9 representative '
+        'layouts, depth <= 2 in quick, depth <= 4 in thorough.')
 ASSUMPTIONS = [
     'omit_unchanged_within = 0 (every announceUpdate is delivered); single thread (accessLock/updateLock not exercised)',
     'member / limit / target values are integers inside the generated ranges or one step outside; FloatEnum values are multiples of 0.5 '
